@@ -12,7 +12,7 @@ tie     : the concurrent scenarios (requests + channel renewal with a short life
 import json, os, re
 import vf
 
-GUARDED = ["SecureChannel.instances", "SecureChannel.activeInstance", "SecureChannel.handlers", "SecureChannel.chunks",
+GUARDED = ["SecureChannel.instances", "SecureChannel.instances[]", "SecureChannel.activeInstance", "SecureChannel.handlers", "SecureChannel.chunks",
            "Client.subs", "Client.pendingAcks", "MonitoredItemService.Items", "MonitoredItemService.Nodes",
            "MonitoredItemService.Subs", "SubscriptionService.Subs", "sessionBroker.s", "channelBroker.s"]
 ROOTS = ["handleOpenSecureChannelRequest", "renew", "SetAttribute", "ChangeNotification"]
@@ -72,8 +72,8 @@ def classify(rep, sites):
     for a in rep["accesses"]:
         top = None
         for fr in a["frames"]:
-            if "file" not in fr or fr["fn"].startswith("runtime."):
-                continue
+            if "file" not in fr or fr["fn"].startswith("runtime.") or fr["file"].startswith("/"):
+                continue  # runtime / standard library / harness frames: the access is attributed to the first /repo frame
             if top is None:
                 top = fr
             for s in sites.get((fr["file"], fr["line"]), []):
@@ -82,6 +82,10 @@ def classify(rep, sites):
             name = fr["fn"].split(".")[-1]
             if root is None and name in ROOTS and "gopcua" in fr["fn"]:
                 root = short(fr["fn"])
+            # the server's connection goroutine handling an OpenSecureChannel request (readChunk adopts the policy and the
+            # certificate from the header, handleOpenSecureChannelRequest the mode, keys and sizes) = one root cause
+            if root is None and name == "readChunk" and any("channelBroker).RegisterConn" in g["fn"] for g in a["frames"]):
+                root = "uasc.SecureChannel.handleOpenSecureChannelRequest"
         if top:
             fns.append("%s@%s:%d" % (short(top["fn"]), top.get("file", "?"), top.get("line", 0)))
     return fields, fns, root
@@ -111,10 +115,10 @@ def run(ctx):
         return
     env = dict(vf.GOENV, GORACE="halt_on_error=0")
     if ctx.thorough():
-        plan = [["-seed", str(ctx.seed + i), "-n", "8", "c36renew"] for i in range(4)] + \
+        plan = [["c36expiry"]] + [["-seed", str(ctx.seed + i), "-n", "8", "c36renew"] for i in range(4)] + \
                [["-seed", str(ctx.seed), "-n", "9", "-ops", "60", "c34"], ["-seed", str(ctx.seed), "-n", "4", "-ops", "120", "c28"]]
     else:
-        plan = [["-seed", str(ctx.seed), "-n", "5", "c36renew"], ["-seed", str(ctx.seed), "-n", "3", "-ops", "30", "c34"],
+        plan = [["c36expiry"], ["-seed", str(ctx.seed), "-n", "5", "c36renew"], ["-seed", str(ctx.seed), "-n", "3", "-ops", "30", "c34"],
                 ["-seed", str(ctx.seed), "-n", "2", "-ops", "60", "c28"]]
     reports, ran, crashed = [], [], []
     for args in plan:
